@@ -25,8 +25,10 @@ GNext ==
           Clone(src, h) /\ Rec(IF h \in Ops THEN "opstart" ELSE "clone", h, src)
      \/ \E h \in Handles : DropCheck(h) /\ Silent
      \/ \E h \in Handles : DropWake(h) /\ Silent
-     \/ \E h \in Handles : DropDec(h) /\ Rec(IF h \in Ops THEN "opfinish" ELSE "drop", h, "")
+     \/ \E h \in Handles : DropDec(h) /\ Rec(IF h \in takers THEN "take2"
+                                               ELSE IF h \in Ops THEN "opfinish" ELSE "drop", h, "")
      \/ \E h \in Handles : T2Swap(h) /\ Silent
+     \/ \E h \in Handles : T2None(h) /\ Silent
      \/ \E h \in Handles : T2Release(h) /\ Rec("take2", h, "")
      \/ CSwap /\ Silent
      \/ CUnwrap1 /\ (IF pcC' = "done" THEN Rec("poll", "C", "") ELSE Silent)
@@ -34,8 +36,11 @@ GNext ==
      \/ CUnwrap2 /\ Rec("poll", "C", "")
      \/ CRepoll /\ Silent
      \/ CSpurious /\ Silent
-     \/ CCancel /\ Rec("cancel", "C", "")
-     \/ CDropUnpolled /\ Rec("dropunpolled", "C", "")
+     \/ CCancel /\ (IF pcC' = "cancelled" THEN Rec("cancel", "C", "") ELSE Silent)
+     \/ CDropUnpolled /\ (IF pcC' \in {"cancelled", "forgot"} THEN Rec("dropunpolled", "C", "") ELSE Silent)
+     \/ CDropCheck /\ Silent
+     \/ CDropWake /\ Silent
+     \/ CDropDec /\ Rec(IF waits THEN "cancel" ELSE "dropunpolled", "C", "")
 
 GSpec == GInit /\ [][GNext]_gvars
 
